@@ -31,13 +31,14 @@ pub struct Cfg {
     pub query_timeout_ms: u64,
     /// replay mode: force every declared variable to this recorded value (single path)
     pub pin: Option<std::sync::Arc<Vec<u64>>>,
+    pub pin_choices: Option<std::sync::Arc<Vec<usize>>>,
 }
 
 impl Default for Cfg {
     fn default() -> Self {
         Cfg {
-            iw: 16,
-            lw: 16,
+            iw: 8,
+            lw: 8,
             vw: 64,
             profile: Profile::Dev,
             adv_argsort: false,
@@ -46,6 +47,7 @@ impl Default for Cfg {
             adv_filler: false,
             query_timeout_ms: 120_000,
             pin: None,
+            pin_choices: None,
         }
     }
 }
@@ -59,6 +61,8 @@ impl Cfg {
 enum Choice {
     Bool { val: bool, other: bool },
     Int { val: u64, tried: Vec<u64>, advance: bool },
+    /// enumerated alternative 0..n, all feasible by construction (no solver involved)
+    Enum { val: usize, n: usize },
 }
 
 #[derive(Default, Clone, Debug)]
@@ -67,6 +71,7 @@ pub struct Stats {
     pub infeasible: u64,
     pub decisions: u64,
     pub forks: u64,
+    pub enumerated: u64,
     pub queries: u64,
     pub solver_s: f64,
     pub incomplete: Option<String>,
@@ -83,6 +88,9 @@ pub struct Ctx {
     pub pc: Vec<T>,
     /// (variable, exclusive upper bound) constraints asserted at declaration
     pub bounds: Vec<(T, u64)>,
+    /// conditions already decided on this path (implied by the path condition)
+    known: std::collections::HashMap<T, bool>,
+    pub choices: Vec<usize>,
     deadline: Option<Instant>,
     q0: u64,
     t0: f64,
@@ -108,10 +116,10 @@ pub fn cfg() -> Cfg {
     with_ctx(|c| c.cfg.clone())
 }
 pub fn iw() -> u8 {
-    CTX.with(|c| c.borrow().as_ref().map(|c| c.cfg.iw).unwrap_or(16))
+    CTX.with(|c| c.borrow().as_ref().map(|c| c.cfg.iw).unwrap_or(8))
 }
 pub fn lw() -> u8 {
-    CTX.with(|c| c.borrow().as_ref().map(|c| c.cfg.lw).unwrap_or(16))
+    CTX.with(|c| c.borrow().as_ref().map(|c| c.cfg.lw).unwrap_or(8))
 }
 pub fn vw() -> u8 {
     CTX.with(|c| c.borrow().as_ref().map(|c| c.cfg.vw).unwrap_or(64))
@@ -285,6 +293,9 @@ pub fn branch(cond: T) -> bool {
     if cond == FALSE {
         return false;
     }
+    if let Some(v) = with_ctx(|c| c.known.get(&cond).copied()) {
+        return v;
+    }
     let replay = with_ctx(|c| {
         if c.pos < c.trace.len() {
             let v = match &c.trace[c.pos] {
@@ -319,7 +330,12 @@ pub fn branch(cond: T) -> bool {
             m
         }
     };
-    assume(if v { cond } else { not(cond) });
+    let nc = not(cond);
+    with_ctx(|c| {
+        c.known.insert(cond, v);
+        c.known.insert(nc, !v);
+    });
+    assume(if v { cond } else { nc });
     v
 }
 
@@ -393,6 +409,41 @@ pub fn concretize(term: T) -> u64 {
     v
 }
 
+/// Enumerated choice among `n` alternatives that are all feasible by construction (used for the
+/// node identifiers of `lax` diagrams, which are concrete `usize` in the library): the explorer
+/// visits every alternative; no solver query is involved. In replay mode (`cfg.pin`) the recorded
+/// choices are read from the tail of the pinned model.
+pub fn choose(n: usize) -> usize {
+    if n == 0 {
+        std::panic::panic_any(Infeasible);
+    }
+    if n == 1 {
+        return 0;
+    }
+    with_ctx(|c| {
+        let v = if c.pos < c.trace.len() {
+            match &c.trace[c.pos] {
+                Choice::Enum { val, .. } => *val,
+                _ => panic!("ENGINE-ERROR: trace mismatch (expected Enum)"),
+            }
+        } else {
+            // a pinned prefix of choices (job splitting, replay) is forced; the rest is enumerated
+            let forced = c.cfg.pin_choices.as_ref().and_then(|p| p.get(c.choices.len()).copied());
+            let v = forced.unwrap_or(0).min(n - 1);
+            c.trace.push(Choice::Enum { val: v, n: if forced.is_some() { v + 1 } else { n } });
+            c.stats.enumerated += 1;
+            v
+        };
+        c.pos += 1;
+        c.choices.push(v);
+        v
+    })
+}
+/// the enumerated choices made so far on this path
+pub fn choices() -> Vec<usize> {
+    with_ctx(|c| c.choices.clone())
+}
+
 /// Run real code, turning its panics into `Err(message)`; engine control-flow payloads pass through.
 pub fn catch<R>(f: impl FnOnce() -> R) -> Result<R, String> {
     match catch_unwind(AssertUnwindSafe(f)) {
@@ -448,6 +499,8 @@ pub fn explore<R>(cfg: Cfg, budget: Option<Duration>, body: impl Fn() -> R) -> (
             stats: Stats::default(),
             pc: vec![],
             bounds: vec![],
+            known: Default::default(),
+            choices: vec![],
             deadline: budget.map(|b| Instant::now() + b),
             q0,
             t0,
@@ -464,6 +517,8 @@ pub fn explore<R>(cfg: Cfg, budget: Option<Duration>, body: impl Fn() -> R) -> (
             c.model_valid = true;
             c.pc.clear();
             c.bounds.clear();
+            c.known.clear();
+            c.choices.clear();
             c.solver.send("(push 1)");
         });
         let r = catch_unwind(AssertUnwindSafe(|| body()));
@@ -513,6 +568,13 @@ pub fn explore<R>(cfg: Cfg, budget: Option<Duration>, body: impl Fn() -> R) -> (
                     Some(Choice::Int { val, tried, .. }) => {
                         c.trace.push(Choice::Int { val, tried, advance: true });
                         return false;
+                    }
+                    Some(Choice::Enum { val, n }) => {
+                        if val + 1 < n {
+                            c.trace.push(Choice::Enum { val: val + 1, n });
+                            return false;
+                        }
+                        continue;
                     }
                 }
             }
